@@ -63,7 +63,7 @@ func seqTail(target string, cur int) []opSpec {
 }
 
 func sweepSeq(r *h.Run) {
-	faultKinds := []string{"err", "short", "crash", "crashshort", "shortnil", "silent", "closelost"}
+	faultKinds := []string{"err", "short", "crash", "crashshort", "shortnil", "silent", "closelost", "ctx"}
 	group := 0
 	for _, kind := range []string{"mutable", "immutable"} {
 		for nh := 0; nh <= 2; nh++ {
@@ -101,8 +101,13 @@ func sweepSeq(r *h.Run) {
 							continue
 						}
 						// quick tier: every operation on the remote entry; a seeded eighth of the purely local ones (half of them for the write-specific faults)
+						if fk == "ctx" { // the caller's context ends inside operation k: cancelled / timed out, alternating
+							fk = []string{"ctxcancel", "ctxdeadline"}[(k+int(r.Seed))%2]
+						}
 						thin := 8
-						if fk != "err" && fk != "crash" {
+						if strings.HasPrefix(fk, "ctx") {
+							thin = 4
+						} else if fk != "err" && fk != "crash" {
 							thin = 2 // the faults specific to writes have few candidates
 						}
 						if !remote && fk != "closelost" && !r.Thorough() && !r.Deep && (k+fi+int(r.Seed))%thin != 0 {
